@@ -186,3 +186,106 @@ Theorem C08_blockified_is_block_level p f root v c :
   blockifies p f root = true -> box_class (display p f root v) = Some c -> C08Display.block_level c = true.
 Proof. exact (blockified_is_block_level p f root v c). Qed.
 Print Assumptions C08_blockified_is_block_level.
+
+(* ---- 5. source: the computers of display / float / break-before / break-after (weasyprint/css/computed_values.py)
+   and the table BOX_TYPE_FROM_DISPLAY (formatting_structure/build.py) REGENERATED from the source on every run
+   (gen/GenComputed.v, gen/GenBuild.v; interpreter base/Py.v) compute exactly the models used in section 4.
+   PyLink.call_body ops (parameters, body) arguments = the value the function returns (VErr m: it raises m);
+   G.bops = exact rationals + the builtins G.builtin (str.startswith, x[0] on a str or a tuple; len is a primitive of
+   base/Py.v); G.style_val rn p f root ms ma = a style object whose specified position is p (running(rn) for
+   PRunning), specified float f, is_root_element root, with any other members ms, ma; G.disp_val v = the tuple of
+   keywords of v as the validator writes it, G.float_val f the keyword of f. ---- *)
+From Coq Require Import String.
+Require WV.base.Py WV.base.PyLink WV.gen.GenComputed WV.gen.GenBuild WV.proofs.C08_gen_display.
+Module G := WV.proofs.C08_gen_display.
+
+(* the regenerated computer of display is the model, for every display value, float, position and root flag *)
+Theorem C08_source_display (rn : string) (p : posv) (f : floatv) (root : bool) (v : disp)
+        (ms ma : list (string * Py.val)) (name : Py.val) :
+  PyLink.call_body G.bops (GenComputed.display_args, GenComputed.display_body)
+    [G.style_val rn p f root ms ma; name; G.disp_val v] = G.disp_val (display p f root v).
+Proof. exact (G.gen_display_value rn p f root v ms ma name). Qed.
+Print Assumptions C08_source_display.
+
+(* hence: what the source computes is the table of CSS 2.1 9.7 (CSS Display 3 2.7) for every value of the validator *)
+Theorem C08_source_display_css21_9_7 (rn : string) (p : posv) (f : floatv) (root : bool) (v : disp)
+        (ms ma : list (string * Py.val)) (name : Py.val) :
+  valid_disp v = true ->
+  PyLink.call_body G.bops (GenComputed.display_args, GenComputed.display_body)
+    [G.style_val rn p f root ms ma; name; G.disp_val v] = G.disp_val (css_display p f root v).
+Proof. exact (G.gen_display_css21_9_7 rn p f root v ms ma name). Qed.
+Print Assumptions C08_source_display_css21_9_7.
+
+(* on an element that is in flow and not the root the source returns ANY value unchanged *)
+Theorem C08_source_display_in_flow_identity (rn : string) (p : posv) (f : floatv) (root : bool) (value : Py.val)
+        (ms ma : list (string * Py.val)) (name : Py.val) :
+  blockifies p f root = false ->
+  PyLink.call_body G.bops (GenComputed.display_args, GenComputed.display_body)
+    [G.style_val rn p f root ms ma; name; value] = value.
+Proof. exact (G.gen_display_in_flow_identity rn p f root value ms ma name). Qed.
+Print Assumptions C08_source_display_in_flow_identity.
+
+(* the encoding loses nothing: equal tuples of keywords are equal display values *)
+Theorem C08_source_disp_val_injective (a b : disp) : G.disp_val a = G.disp_val b -> a = b.
+Proof. exact (G.disp_val_inj a b). Qed.
+Print Assumptions C08_source_disp_val_injective.
+
+(* the regenerated computer of float is the model (CSS 2.1 9.7 step 2): position absolute / fixed / running() -> none *)
+Theorem C08_source_compute_float (rn : string) (p : posv) (f : floatv) (root : bool)
+        (ms ma : list (string * Py.val)) (name : Py.val) :
+  PyLink.call_body G.bops (GenComputed.compute_float_args, GenComputed.compute_float_body)
+    [G.style_val rn p f root ms ma; name; G.float_val f] = G.float_val (compute_float p f).
+Proof. exact (G.gen_compute_float_value rn p f root ms ma name). Qed.
+Print Assumptions C08_source_compute_float.
+
+(* BOX_TYPE_FROM_DISPLAY[display[:2]] as regenerated is the model's box class (display: none has no entry), and the
+   table has no other row *)
+Theorem C08_source_box_type (v : disp) :
+  G.table_get (G.first_two (G.disp_val v)) GenBuild.box_type_from_display = option_map G.class_name (box_class v).
+Proof. exact (G.gen_box_type v). Qed.
+Print Assumptions C08_source_box_type.
+
+Theorem C08_source_box_type_rows :
+  Forall (fun row => exists v c, fst row = G.first_two (G.disp_val v) /\ box_class v = Some c /\ snd row = G.class_name c)
+         GenBuild.box_type_from_display.
+Proof. exact G.gen_box_type_rows. Qed.
+Print Assumptions C08_source_box_type_rows.
+
+(* the clause 'elements generate the boxes their computed display, float and position prescribe', on the regenerated
+   text end to end: the class looked up for the value the source computes is the class of the CSS 2.1 9.7 computed
+   display ... *)
+Theorem C08_source_box_of_element (rn : string) (p : posv) (f : floatv) (root : bool) (v : disp)
+        (ms ma : list (string * Py.val)) (name : Py.val) :
+  valid_disp v = true ->
+  G.table_get (G.first_two (PyLink.call_body G.bops (GenComputed.display_args, GenComputed.display_body)
+                              [G.style_val rn p f root ms ma; name; G.disp_val v])) GenBuild.box_type_from_display
+  = option_map G.class_name (box_class (css_display p f root v)).
+Proof. exact (G.gen_box_of_element rn p f root v ms ma name). Qed.
+Print Assumptions C08_source_box_of_element.
+
+(* ... and a float, an absolutely positioned element and the root element generate a block-level box, whatever their
+   specified display other than none (table-caption included) *)
+Theorem C08_source_out_of_flow_box_is_block_level (rn : string) (p : posv) (f : floatv) (root : bool) (v : disp)
+        (ms ma : list (string * Py.val)) (name : Py.val) :
+  blockifies p f root = true -> v <> DNone ->
+  exists c, G.table_get (G.first_two (PyLink.call_body G.bops (GenComputed.display_args, GenComputed.display_body)
+                                        [G.style_val rn p f root ms ma; name; G.disp_val v]))
+                        GenBuild.box_type_from_display = Some (G.class_name c) /\ C08Display.block_level c = true.
+Proof. exact (G.gen_out_of_flow_box_is_block_level rn p f root v ms ma name). Qed.
+Print Assumptions C08_source_out_of_flow_box_is_block_level.
+
+(* break-before / break-after: for every value at all 'always' computes to 'page' and anything else to itself; the
+   eleven keywords of the validator compute to the ten that layout/block.py folds (C04) *)
+Theorem C08_source_break_before_after (style name value : Py.val) :
+  PyLink.call_body G.bops (GenComputed.break_before_after_args, GenComputed.break_before_after_body) [style; name; value] =
+  match value with Py.VStr s => if String.eqb s "always"%string then Py.VStr "page"%string else value | _ => value end.
+Proof. exact (G.gen_break_before_after style name value). Qed.
+Print Assumptions C08_source_break_before_after.
+
+Theorem C08_source_break_computed_keywords (style name : Py.val) :
+  Forall (fun s => exists s', PyLink.call_body G.bops (GenComputed.break_before_after_args, GenComputed.break_before_after_body)
+                                [style; name; Py.VStr s] = Py.VStr s' /\ In s' G.layout_break_keywords /\
+                              (s <> "always"%string -> s' = s) /\ (s = "always"%string -> s' = "page"%string))
+         G.break_keywords.
+Proof. exact (G.gen_break_computed_keywords style name). Qed.
+Print Assumptions C08_source_break_computed_keywords.
